@@ -146,7 +146,7 @@ impl Property for C04 {
         }
     }
     fn enumerate(&self, quick: bool) -> Box<dyn Iterator<Item = Case> + Send + '_> {
-        let ex = (if quick { vec![FamId::K256] } else { ALL_FAMS.to_vec() }).into_iter().flat_map(move |f| history::exhaustive(f, if quick { 1 } else { 2 })).chain(history::depth1_rest(if quick { &[FamId::K256] } else { &ALL_FAMS })).chain(history::long_repeats(quick)).chain(history::many_pairs(quick)).map(Case::Hist);
+        let ex = (if quick { vec![FamId::K256] } else { ALL_FAMS.to_vec() }).into_iter().flat_map(move |f| history::exhaustive(f, if quick { 1 } else { 2 })).chain(history::depth1_rest(if quick { &[FamId::K256] } else { &ALL_FAMS })).chain(history::long_repeats(quick)).chain(history::many_pairs(quick)).chain(crate::props::c09::builder_sweep()).map(Case::Hist);
         Box::new(ex.chain(crate::props::c02::C02.enumerate(quick)))
     }
     fn fuzz_plans(&self) -> Vec<(&'static str, u64)> {
